@@ -370,6 +370,15 @@ AGING = ["(car '())", "(list (list (list (list (list (car '()))))))", "(undefine
          "(/ 1 0)", "((lambda (a b) a) 1)", "(let ((f (lambda () (car '())))) (list (f)))", "(cond (#t => car))", "(case 1 ((1) => (lambda () 0)))"]
 
 
+# a macro definition that is REJECTED (it stands where only an expression or an internal definition may stand) for the bundled keywords and some builtins: it
+# must not change what these names mean afterwards; and definitions / assignments whose value expression fails: the name keeps what it had
+for _kw in ("unless", "when", "cond", "case", "and", "or", "let", "let*", "begin", "car", "list", "+"):
+    _m = "(define-syntax %s (syntax-rules () ((%s x ...) 'aged-macro)))" % (_kw, _kw)
+    AGING += ["(lambda () %s 1)" % _m, "(define (zz-aged) %s 1)" % _m, "(if %s 1 2)" % _m, "((lambda (zz-a) %s zz-a) 1)" % _m, "(vector %s)" % _m]
+AGING += ["(define car (vector-ref (vector) 0))", "(define list (undefined-zz))", "(set! cons (car '()))", "(set! undefined-zz2 (car '()))", "(define (zz-aged2 . r))", "(define + (+ 'a 1))",
+          "(define zz-aged3 (zz-aged3))", "(set! zz-aged4 1)", "(define vector (let ((a)) a))"]
+
+
 def aging(rng, n):
     """n source texts that each end in an error (syntax errors inside derived forms, failed expansions, run-time faults at several nesting depths,
     failed imports) and change nothing a program can observe; evaluated on an interpreter before the judged program"""
